@@ -155,9 +155,32 @@ fn lim(s: &str) -> usize {
     }
 }
 
-/// schedule "a:b:c,a:b:c,..." ("-" inside = unlimited = -1)
-fn sched(s: &str) -> Vec<Vec<i64>> {
-    s.split(',').map(|it| it.split(':').map(num).collect()).collect()
+/// schedule "a:b:c,a:b:c,..." ("-" inside = unlimited = -1); with "P|C" the items of P are used once,
+/// then the items of C cyclically
+struct Sched {
+    pre: Vec<Vec<i64>>,
+    cyc: Vec<Vec<i64>>,
+}
+
+impl Sched {
+    fn at(&self, call: usize) -> &Vec<i64> {
+        if call < self.pre.len() {
+            &self.pre[call]
+        } else {
+            &self.cyc[(call - self.pre.len()) % self.cyc.len()]
+        }
+    }
+    fn len(&self) -> usize {
+        self.cyc.len()
+    }
+}
+
+fn sched(s: &str) -> Sched {
+    let parse = |t: &str| -> Vec<Vec<i64>> { t.split(',').map(|it| it.split(':').map(num).collect()).collect() };
+    match s.split_once('|') {
+        Some((a, b)) => Sched { pre: parse(a), cyc: parse(b) },
+        None => Sched { pre: Vec::new(), cyc: parse(s) },
+    }
 }
 
 /// How decoder snapshots are taken between calls (C19); the model has no such notion:
@@ -614,7 +637,7 @@ impl Ctx {
         let mut trace = String::new();
         let mut why = "cap";
         while calls < 200000 {
-            let it = &sc[calls % sc.len()];
+            let it = sc.at(calls);
             let end = in_off.saturating_add(it[0] as usize).min(input.len());
             let chunk = &input[in_off..end];
             let fl = flags | if end < input.len() { 2 } else { 0 };
@@ -686,7 +709,7 @@ impl Ctx {
         let mut trace = String::new();
         let mut why = "cap";
         while calls < 200000 {
-            let it = &sc[calls % sc.len()];
+            let it = sc.at(calls);
             let end = in_off.saturating_add(it[0] as usize).min(input.len());
             let chunk = &input[in_off..end];
             let mut ob = vec![0u8; it[1] as usize];
@@ -758,7 +781,7 @@ impl Ctx {
         let mut viol = 0usize;
         let mut prev_unused = true;
         while calls < 400000 {
-            let it = &sc[calls % sc.len()];
+            let it = sc.at(calls);
             let end = in_off.saturating_add(it[0] as usize).min(input.len());
             let chunk = &input[in_off..end];
             let mut fl = it[2];
